@@ -76,6 +76,55 @@ PY2_ONLY_NAMES = {'unicode', 'basestring', 'xrange', 'raw_input', 'unichr',
                   'reduce', 'long', 'cmp', 'execfile', 'file'}
 
 
+def static_binding(chk, repo, rule='R00.1'):
+    """Precondition of every rule: the functions that were analysed are the
+    ones that run.  A method is what the class body binds last under its
+    name; nothing outside a class body may attach or replace an attribute of
+    a package class (`setattr(Class, name, f)`, `Class.name = f`), and no
+    module may rebind a function it defines.  One obligation per module."""
+    classes = set()
+    for m in repo.all_mods():
+        for c in ast.walk(m.tree):
+            if isinstance(c, ast.ClassDef):
+                classes.add(c.name)
+    n = 0
+    for m in repo.all_mods():
+        n += 1
+        bad = []
+        funcs = set(f.name for f in m.tree.body
+                    if isinstance(f, ast.FunctionDef))
+        for node in ast.walk(m.tree):
+            # inside a class body `name = ...` is the binding itself
+            if isinstance(node, ast.Call) and isinstance(
+                    node.func, ast.Name) and node.func.id == 'setattr' \
+                    and node.args and isinstance(node.args[0], ast.Name) \
+                    and node.args[0].id in classes:
+                bad.append('setattr(%s, ...) at line %d'
+                           % (node.args[0].id, node.lineno))
+            if isinstance(node, (ast.Assign, ast.AugAssign)):
+                tgts = node.targets if isinstance(node, ast.Assign) \
+                    else [node.target]
+                for t in tgts:
+                    if isinstance(t, ast.Attribute) and isinstance(
+                            t.value, ast.Name) and t.value.id in classes \
+                            and isinstance(t.ctx, ast.Store):
+                        bad.append('%s.%s = ... at line %d'
+                                   % (t.value.id, t.attr, node.lineno))
+        for stmt in m.tree.body:
+            if isinstance(stmt, ast.Assign):
+                for t in stmt.targets:
+                    if isinstance(t, ast.Name) and t.id in funcs:
+                        bad.append('%s rebound at line %d'
+                                   % (t.id, stmt.lineno))
+        chk.ob(rule, not bad, m.rel, m.tree.body[0] if m.tree.body else None,
+               key='static-binding', qualname='<module>',
+               what='no attribute of a package class is attached or replaced '
+                    'from outside its class body, and no module-level '
+                    'function is rebound (the analysed functions are the '
+                    'ones that run)', found='; '.join(bad))
+    chk.need(rule, n, 20, 'modules')
+
+
 def py2_api(chk, repo, rule='SWEEP.py2api'):
     """Names that exist only in Python 2 (`from sys import exc_traceback`
     raises ImportError when the line runs, typically inside an error
